@@ -88,11 +88,12 @@ static std::vector<T> weight_pattern(sz channels, int wp)
 }
 
 template <typename T>
-static mode_out run_serial(int kind, sz channels, int wp, int mode, std::vector<sz> const& calls, T target)
+static mode_out run_serial(int kind, sz channels, int wp, int mode, std::vector<sz> const& calls, T target, int file_variant = 0)
 {
     using E = vf::script_engine;
     mode_out out;
-    std::string const file = g_dir + "/serial.chkpt";
+    // file_variant 1: the default (empty) file name; 2: a path that cannot be written (the directory does not exist)
+    std::string const file = file_variant == 1 ? std::string() : file_variant == 2 ? g_dir + "/no-such-directory/serial.chkpt" : g_dir + "/serial.chkpt";
     ::unlink(file.c_str());
     vf::script_engine::table().clear();
     vf::script_engine::salt() = 2000;
@@ -109,7 +110,7 @@ static mode_out run_serial(int kind, sz channels, int wp, int mode, std::vector<
         else if (kind == 1)
         {
             using C = hep::vegas_chkpt_with_rng<E, T>;
-            auto c = hep::vegas(hep::make_integrand<T>(pf<T>(), 1), calls, hep::make_vegas_chkpt<T, E>(4, T(1.5), E()), rec_cb<C>{hep::callback<C>(g_modes[mode], file, target), &out.seen});
+            auto c = hep::vegas(hep::make_integrand<T>(pf<T>(), 1), calls, hep::make_vegas_chkpt<T, E>(4, T(0.5), E()), rec_cb<C>{hep::callback<C>(g_modes[mode], file, target), &out.seen});
             out.text = text_of(c);
         }
         else
@@ -118,7 +119,7 @@ static mode_out run_serial(int kind, sz channels, int wp, int mode, std::vector<
             vf::pl_map<T> map;
             for (sz i = 0; i != channels; ++i) map.split.push_back(T(i + 1) / T(channels + 1));
             auto c = hep::multi_channel(hep::make_multi_channel_integrand<T>(mf<T>(), 1, map, 1, channels), calls,
-                hep::make_multi_channel_chkpt<T, E>(weight_pattern<T>(channels, wp), T(0.01L), T(0.25), E()), rec_cb<C>{hep::callback<C>(g_modes[mode], file, target), &out.seen});
+                hep::make_multi_channel_chkpt<T, E>(weight_pattern<T>(channels, wp), T(0.01L), T(0.375), E()), rec_cb<C>{hep::callback<C>(g_modes[mode], file, target), &out.seen});
             out.text = text_of(c);
         }
     }
@@ -127,6 +128,7 @@ static mode_out run_serial(int kind, sz channels, int wp, int mode, std::vector<
     out.printed = captured.str();
     out.file = read_file(file, out.file_exists);
     ::unlink(file.c_str());
+    if (file_variant == 1) ::unlink(".tmp");   // the temporary file of a writing mode without a file name
     return out;
 }
 
@@ -141,10 +143,12 @@ static void part_a(report& r)
     for (auto const& c : cfgs)
     for (int integrand = 0; integrand != 4; ++integrand)
     for (T target : {T(0), T(0.12L), T(-1)})      // -1: no target, and the second iteration is asked for zero calls
+    for (int fv = 0; fv != 3; ++fv)               // the checkpoint file: writable, no name given, not writable
     {
         if (target < T() && c.kind == 2 && c.channels > 3) continue;
+        if (fv != 0 && (target < T() || (c.kind == 2 && (c.channels != 3 || c.wp != 3)))) continue;
         std::string const id = tn + " A kind=" + std::to_string(c.kind) + " channels=" + std::to_string(c.channels) + " weights=" + std::to_string(c.wp) + " integrand=" + std::to_string(integrand)
-            + " target=" + vf::dec(target);
+            + " target=" + vf::dec(target) + (fv == 1 ? " no-file-name" : fv == 2 ? " unwritable-file" : "");
         if (!r.want(id)) continue;
         r.eval();
         g_integrand = integrand;
@@ -152,7 +156,7 @@ static void part_a(report& r)
         bool threw = false;
         for (int m = 0; m != 4 && !threw; ++m)
         {
-            try { outs.push_back(run_serial<T>(c.kind, c.channels, c.wp, m, target < T() ? std::vector<sz>{30, 0, 20} : calls, target < T() ? T() : target)); }
+            try { outs.push_back(run_serial<T>(c.kind, c.channels, c.wp, m, target < T() ? std::vector<sz>{30, 0, 20} : calls, target < T() ? T() : target, fv)); }
             catch (std::exception const& e) { r.violate("reporting-threw", id, id + " mode " + std::to_string(m) + ": exception " + e.what()); threw = true; }
         }
         if (threw) continue;
@@ -165,7 +169,7 @@ static void part_a(report& r)
         r.outcome("iterations performed", outs[0].seen.size());
         for (int m = 0; m != 4; ++m)
         {
-            bool const writes = m == 1 || m == 3, prints = m >= 2;
+            bool const writes = (m == 1 || m == 3) && fv == 0, prints = m >= 2;
             if (outs[m].file_exists != writes) r.violate("file-written-iff-writing-mode", id, id + " mode " + std::to_string(m) + ": checkpoint file " + (outs[m].file_exists ? "exists" : "missing"));
             else if (writes && outs[m].file != outs[m].text) r.violate("file-differs-from-result", id, id + " mode " + std::to_string(m) + ": the file is not the final checkpoint");
             if (prints == outs[m].printed.empty()) r.violate("prints-iff-verbose", id, id + " mode " + std::to_string(m) + ": printed " + std::to_string(outs[m].printed.size()) + " characters");
@@ -203,14 +207,14 @@ static void part_a(report& r)
             else if (kind == 1)
             {
                 using C = hep::vegas_chkpt_with_rng<E, T>;
-                texts[rank] = text_of(hep::mpi_vegas(MPI_COMM_WORLD, hep::make_integrand<T>(pf<T>(), 1), calls, hep::make_vegas_chkpt<T, E>(4, T(1.5), E()), rec_mpi_cb<C>{hep::mpi_callback<C>(g_modes[m], file, target), &seen}));
+                texts[rank] = text_of(hep::mpi_vegas(MPI_COMM_WORLD, hep::make_integrand<T>(pf<T>(), 1), calls, hep::make_vegas_chkpt<T, E>(4, T(0.5), E()), rec_mpi_cb<C>{hep::mpi_callback<C>(g_modes[m], file, target), &seen}));
             }
             else
             {
                 using C = hep::multi_channel_chkpt_with_rng<E, T>;
                 vf::pl_map<T> map; map.split = {T(0.25), T(0.5), T(0.75)};
                 texts[rank] = text_of(hep::mpi_multi_channel(MPI_COMM_WORLD, hep::make_multi_channel_integrand<T>(mf<T>(), 1, map, 1, 3), calls,
-                    hep::make_multi_channel_chkpt<T, E>(weight_pattern<T>(3, 3), T(0.01L), T(0.25), E()), rec_mpi_cb<C>{hep::mpi_callback<C>(g_modes[m], file, target), &seen}));
+                    hep::make_multi_channel_chkpt<T, E>(weight_pattern<T>(3, 3), T(0.01L), T(0.375), E()), rec_mpi_cb<C>{hep::mpi_callback<C>(g_modes[m], file, target), &seen}));
             }
         });
         if (!out.ok) { r.violate("mpi-run-failed", id, id + ": " + out.what); continue; }
